@@ -1,18 +1,22 @@
-import CoapVerif.Lemmas.Encode
-import CoapVerif.Model.Build
+import CoapVerif.Lemmas.Edit
 /-
 C04 — in-place message edits change only what they name.
 
   S = Spec.applyEdit on (token, ordered option list, payload)     (Spec/Encode.lean)
   M = M.insertOption / M.updateOption / M.removeOption / M.updateToken   (Model/Build.lean)
 
-STATUS.  Proved here: the frame theorems about S (P2).  NOT proved yet: that M refines S
-(`insert_refines`, `update_refines`, `remove_refines`, `update_token_refines`) and
-`edits_then_roundtrip`; their intended statements are kept in the comment at the end of this file and
-the check reports the names as missing.  The correspondence M = I is measured by T2 on every run.
+STATUS.
+ * proved in full: the frame theorems about S (`edit_frame`, `edits_keep_order`, `edit_sequence_keeps_order`);
+   `update_token_refines` (coap_update_token, all three memmove directions, any token length 0..65804);
+   `roundtrip_of_refined` (whatever PDU represents a well-formed abstract message serialises and re-parses to it).
+ * NOT proved: `insert_refines`, `update_refines`, `remove_refines` (the six next-header rewrite cases of
+   coap_insert_option / coap_remove_option and the splice of coap_update_option) and therefore
+   `edits_then_roundtrip` for sequences containing those edits.  Their intended statements are at the end of this
+   file.  For these three editors the correspondence M = I is measured by T2 only, and "M refines S" is observed
+   (I vs S on every generated case), not proved.
 -/
 namespace Coap.C04
-open Coap
+open Coap Coap.M
 
 /-- Frame theorem: an abstract edit changes only what it names.  Header fields and payload never
 change; the token changes only through `setToken`; and the option list changes exactly by one element
@@ -99,6 +103,30 @@ theorem edit_sequence_keeps_order (es : List (Bool × Spec.Edit)) (m : Msg) (h :
   | nil => exact h
   | cons e es ih => exact ih _ (edits_keep_order e.1 m e.2 h)
 
+/-! ### M refines S -/
+
+/-- coap_update_token changes the token and nothing else: on the PDU that represents `a` it yields the PDU that
+represents `a` with the new token — option bytes, payload bytes, `max_opt` and the payload offset follow the move —
+for every token length 0..65804 in both directions; capacity is needed only when the token field grows. -/
+theorem update_token_refines (ms : Nat) (a : Msg) (t : Bytes) (ht : t.length ≤ 65804) (hne : (conc ms a).buf ≠ [])
+    (hfit : (Spec.encToken t).length ≤ (Spec.encToken a.token).length ∨ ms = 0 ∨
+            (conc ms { a with token := t }).buf.length ≤ ms) :
+    updateToken (conc ms a) t = R.ok (1, conc ms (Spec.applyEdit false a (.setToken t))) :=
+  updateToken_conc ms a t ht hne hfit
+
+/-- the second half of `edits_then_roundtrip`: once the edited PDU is known to represent the abstract message `a`
+(which is what each `*_refines` theorem establishes, edit by edit), its serialisation decodes to exactly `a` -/
+theorem roundtrip_of_refined (p : Proto) (ms : Nat) (a : Msg) (h : Spec.WF p a) :
+    ∃ bytes, serialise p (conc ms a) = some bytes ∧ Spec.decode p bytes = some (Spec.onWire p a) := by
+  obtain ⟨hty, hcode, hmid, ht, _, _, hlen⟩ := h
+  exact ⟨Spec.encode p a, serialise_conc p ms a hty hcode hmid ht hlen,
+         Coap.decode_encode p a ⟨hty, hcode, hmid, ht, by assumption, by assumption, hlen⟩⟩
+
+/-- non-vacuity: a 1-byte token replaced by a 14-byte one (the token field gains an extension byte and everything
+behind it moves up); the 300-byte replacement that used to corrupt the options is corpus/C04 line 1 on the real code -/
+example : updateToken (conc 0 ⟨0, 1, 1, [1], [(11, [0x61]), (2000, [0x62])], [9]⟩) [1,2,3,4,5,6,7,8,9,10,11,12,13,14]
+    = R.ok (1, conc 0 ⟨0, 1, 1, [1,2,3,4,5,6,7,8,9,10,11,12,13,14], [(11, [0x61]), (2000, [0x62])], [9]⟩) := by decide
+
 /-! non-vacuity -/
 example : Spec.applyEdit false ⟨0, 1, 7, [1], [(3, [0x68]), (11, [0x61]), (300, [1])], [9]⟩ (.insert 11 [0x62]) =
     ⟨0, 1, 7, [1], [(3, [0x68]), (11, [0x61]), (11, [0x62]), (300, [1])], [9]⟩ := by decide
@@ -108,15 +136,13 @@ example : Spec.applyEdit true ⟨0, 1, 7, [], [(11, [0x61])], []⟩ (.insert 35 
     ⟨0, 1, 7, [], [(11, [0x61]), (16, [16]), (35, [0x78])], []⟩ := by decide
 
 /-
-INTENDED, NOT YET PROVED (with `conc`, `Shape` from Lemmas/BuildDefs.lean):
+INTENDED, NOT PROVED (with `conc`, `Shape` from Lemmas/BuildDefs.lean):
 
   insert_refines       : Shape a → n < lastNum a.opts → v.length ≤ 65804 → fits ms a (encOpt …).length →
                          M.insertOption (conc ms a) n v = R.ok (shift, conc ms (Spec.applyEdit false a (.insert n v)))
   update_refines       : Shape a → hasOpt n a.opts → … →
                          M.updateOption (conc ms a) n v = R.ok (1, conc ms (Spec.applyEdit false a (.update n v)))
   remove_refines       : Shape a → M.removeOption (conc ms a) n = R.ok (rc, conc ms (if rc = 0 then a else Spec.applyEdit false a (.remove n)))
-  update_token_refines : Shape a → a.token ≠ [] ∨ … → t.length ≤ 65804 → fits … →
-                         M.updateToken (conc ms a) t = R.ok (1, conc ms (Spec.applyEdit false a (.setToken t)))
   edits_then_roundtrip : after any accepted edit sequence Spec.decode p (bytes) = some (onWire p (fold of the abstract edits))
 -/
 end Coap.C04
